@@ -69,13 +69,31 @@ ASSUMPTIONS = ["rounding / fastmath re-association are covered by the stated for
 RULE = ("cases = (mode plan|single|neg1|edge, auto|cross, detrend order, scheduler, window, backend, trend scale 1|1e3|1e6 x noise, "
         "trend on channel 1|2|both, degree <= p or p+1); records/coefficients from a per-case seed, every (order x scheduler x window x mode) by rotation; "
         "distinct by (mode, cross, order, scheduler, window, backend, variant, scale, L); non-trivial = a bin with L >= 2 and a non-zero window whose "
-        "estimate is compared before/after a trend of relative size >= 1")
+        "estimate is compared before/after a trend of relative size >= 1; units stream: the same cases with the whole record (noise and trend) "
+        "multiplied by 2**e, e drawn from each of the bands of UNIT_BANDS (2**-200 … 2**+130) on every run, orders -1..2, auto/cross, single-bin and "
+        "compute(), numba and numpy, plus statistics(2**e x) == 2**(2e) statistics(x) (M2: 2**(4e)) bit for bit for e >= -160")
 
 U = 2.0 ** -53
 ORDERS = [0, 1, 2]
 WINS = ["hann", "kaiser"]
 BACKENDS = ["numba", "numpy"]
 SCALES = [1.0, 1e3, 1e6]
+# UNITS of the record (detrending is linear: it commutes with rescaling the record).  The whole analysed record (noise AND trend) is multiplied by
+# 2**e, an exact operation.  Bounds: the base records are O(1) (|sample| <~ 5), the trends up to 1e6 x that and Tnext up to 1e5 x, so with
+# e in [-200, +130] every sample that is not exactly 0 lies in about [2**-200 * 1e-4, 2**130 * 1e7] = [6e-65, 1.4e46], inside [1e-65, 1e60]:
+# XX, YY, XY are QUADRATIC in the amplitude (>= ~1e-130, <= (1e46 * L)**2 ~ 1e100) and M2 is QUARTIC (>= ~1e-260 before the relative smallness of
+# a bin, <= ~1e200): none of them overflows, none underflows to 0, and the rounding budgets (which are U * amplitude**2 / **4, i.e. they scale with
+# the data and contain no absolute floor above 1e-300) stay representable.  Every band of binades below is visited on every run; the bands
+# straddle the constants an absolute threshold is likely to be confused with (eps 2**-52, sqrt(tiny) 2**-511 is out of reach by the quartic M2,
+# float32 tiny 2**-126 / max 2**128, 1e-30, 1e-50).
+UNIT_BANDS = [(-200, -150), (-150, -100), (-100, -70), (-70, -45), (-45, -20), (20, 60), (60, 100), (100, 130)]
+# the bit-for-bit predicate stats(c x) == c**2 stats(x) needs in addition that NO INTERMEDIATE of the scaled run becomes subnormal (then the
+# scaled run rounds where the unscaled one did not): the smallest non-zero intermediates are the squares (d*d) of the deviations d = XY_k - mean
+# in M2; d is a difference of doubles, so |d| >= 2**-53 x (the smaller XY_k), and for the O(1) noise records used there XY_k >~ 1e-30 x peak
+# (200 dB Kaiser side lobes squared is 1e-40 in the worst case) -> d*d >~ 1e-110 x amplitude**4.  With e >= -160 amplitude**4 >= 2e-193 and the
+# product stays above 1e-303 > 2.2e-308; results whose scaled value is non-zero and below 1e-290 (or above 1e290) are not compared (counted in
+# `unstable`).
+EXACT_MIN_EXP = -160
 
 
 # ---------------------------------------------------------------- CUDA (simulator) at analyzer level, in a worker process
@@ -284,7 +302,16 @@ def build_records(s: Dict[str, Any]) -> Tuple[np.ndarray, Optional[np.ndarray]]:
     x2 = None
     if s["cross"]:
         x2 = 0.6 * np.concatenate([[0.0], x1[:-1]]) + _an.record(r, N, kind)
+    c = unit_of(s)
+    if c != 1.0:
+        x1 = x1 * c
+        x2 = x2 * c if x2 is not None else None
     return x1, x2
+
+
+def unit_of(s: Dict[str, Any]) -> float:
+    """the unit 2**unit_exp in which the record of this case is expressed (exact power of two; 1 when absent)"""
+    return math.ldexp(1.0, int(s.get("unit_exp", 0) or 0))
 
 
 def pack(x1, x2, how):
@@ -318,7 +345,7 @@ def run_impl(s: Dict[str, Any], x1, x2, backend: str, cuda: Optional[CudaAnalyze
 
 
 def short(s: Dict[str, Any]) -> Dict[str, Any]:
-    return {k: s[k] for k in ("mode", "idx", "cross", "N", "fs", "scale", "layout", "L", "freq", "T1", "T2", "Tnext") if k in s} | {"o": s["o"]}
+    return {k: s[k] for k in ("mode", "idx", "cross", "N", "fs", "scale", "layout", "L", "freq", "T1", "T2", "Tnext", "unit_exp") if k in s} | {"o": s["o"]}
 
 
 def ref_delta_XX(x1a, x1b, res, j: int, o: Dict[str, Any], fs: float, order: int) -> Tuple[float, float]:
@@ -359,7 +386,8 @@ def check_next_degree(P: C.Part, s: Dict[str, Any], be: str, r_base, r_next, t_b
         if not (abs(dimp) >= 1e3 * tol and abs(dimp - dref) <= tol):
             P.violations.append(C.Violation(
                 what=f"{be} order={order}: a trend of degree {order + 1} changes XX[{j}] by {dref:.6g} by the definition (= {abs(dref) / tol:.3g} x rounding budget) "
-                     f"but the result changed by {dimp:.6g}; L={L}, scheduler={s['o']['scheduler']}, win={s['o']['win']}",
+                     f"but the result changed by {dimp:.6g}; L={L}, scheduler={s['o']['scheduler']}, win={s['o']['win']}"
+                     + (f" [record in units of 2**{int(s['unit_exp'])}]" if s.get("unit_exp") else ""),
                 signature={**sig, "sub": "next-degree", "order": order}, replay={**rp, "bin": j}))
     if not found:
         P.hit("next-degree.no-decisive-bin(case)")
@@ -385,8 +413,10 @@ def run_spec(P: C.Part, s: Dict[str, Any], backends: List[str], cuda: Optional[C
             if len(P.notes) < 4:
                 P.notes.append(f"plan raised for {short(s)}: {ex!r}"[:160])
             return
-    T1 = poly_trend(N, s["T1"])
-    T2 = poly_trend(N, s["T2"])
+    cu = unit_of(s)
+    ut = f" [record in units of 2**{int(s['unit_exp'])}]" if s.get("unit_exp") else ""
+    T1 = poly_trend(N, s["T1"]) * cu
+    T2 = poly_trend(N, s["T2"]) * cu
     variants: List[Tuple[str, np.ndarray, Optional[np.ndarray]]] = []
     if order >= 0:
         variants.append(("ch1", x1 + T1, x2))
@@ -396,7 +426,7 @@ def run_spec(P: C.Part, s: Dict[str, Any], backends: List[str], cuda: Optional[C
     if s.get("cuda_light") and len(variants) > 1:
         variants = variants[-1:]                  # CUDA-simulator cases: only the "both channels" variant (the simulator is slow)
     # degree order+1, centred on the record, relative to the noise level
-    Tn = poly_trend(N, s["Tnext"], centred=True)
+    Tn = poly_trend(N, s["Tnext"], centred=True) * cu
     x1n = x1 + Tn
     wc: Dict[int, np.ndarray] = {}
     results: Dict[str, Any] = {}
@@ -404,6 +434,8 @@ def run_spec(P: C.Part, s: Dict[str, Any], backends: List[str], cuda: Optional[C
         if be == "cuda" and cuda is None:
             continue
         sig = {"mode": s["mode"], "backend": be, "order": order, "cross": cross, "scheduler": o["scheduler"], "win": o["win"]}
+        if s.get("unit_exp"):
+            sig["units"] = "small" if s["unit_exp"] < 0 else "large"
         rp = {**rp0, "backend": be}
         try:
             r_base, unchanged = run_impl(s, x1, x2, be, cuda)
@@ -424,10 +456,10 @@ def run_spec(P: C.Part, s: Dict[str, Any], backends: List[str], cuda: Optional[C
                     P.violations.append(C.Violation(what=f"{be}: the analysis modified the caller's data", signature={**sig, "sub": "input-modified"}, replay=rp))
                 t_v = Tols(r_v, v1, v2, o, fs, wc)
                 P.hit(f"variant.{vn}.scale{s['scale']:g}")
-                key = (s["mode"], cross, order, o["scheduler"], o["win"], be, vn, s["scale"])
+                key = (s["mode"], cross, order, o["scheduler"], o["win"], be, vn, s["scale"]) + ((("unit", int(s["unit_exp"])),) if s.get("unit_exp") else ())
                 compare_results(P, r_base, r_v, t_base, t_v, cross, fs, key,
                                 f"{be} {o['scheduler']} order={order} {'cross' if cross else 'auto'} win={o['win']}: polynomial of degree <= {max(order, 0)} "
-                                f"(size {s['scale']:g} x noise) added to {vn}", {**sig, "variant": vn}, {**rp, "variant": vn}, stats)
+                                f"(size {s['scale']:g} x noise) added to {vn}{ut}", {**sig, "variant": vn}, {**rp, "variant": vn}, stats)
                 if vn == ("both" if cross else "ch1"):
                     results[be + "+trend"] = (r_v, t_v)
             # degree order+1 changes the estimate (order −1: a constant changes it)
@@ -494,6 +526,124 @@ def check_repeat(P: C.Part, s: Dict[str, Any], stats) -> None:
         compare_results(P, ra, rc, t, t, s["cross"], s["fs"], ("repeat-fresh", be, s["o"]["order"]), f"{be}: a fresh analyzer gives a different result", sig,
                         {"spec": s, "backend": be}, stats)
 
+
+
+# ---------------------------------------------------------------- units: detrending is linear, it commutes with rescaling the record
+def unit_spec(mode: str, idx: int, case_seed: int, unit_exp: int, order: Optional[int] = None, scale: Optional[float] = None) -> Dict[str, Any]:
+    """a case of `make_spec` whose whole record (noise and trends) is expressed in units of 2**unit_exp"""
+    s = make_spec(mode, idx, case_seed)
+    s["unit_exp"] = int(unit_exp)
+    s["N"] = min(int(s["N"]), 1200) if mode != "single" else s["N"]
+    if scale is not None and scale != s["scale"]:
+        q = float(scale) / float(s["scale"])
+        s["T1"] = [float(v * q) for v in s["T1"]]
+        s["T2"] = [float(v * q) for v in s["T2"]]
+        s["scale"] = float(scale)
+    if order == -1:
+        s["o"]["order"] = -1
+        s["Tnext"] = [float(s["Tnext"][-1])]
+        if mode == "single":
+            s["L"] = max(int(s["L"]), 2)
+            s["N"] = max(int(s["N"]), s["L"])
+    return s
+
+
+def check_scale(P: C.Part, s: Dict[str, Any], stats: Dict[str, float]) -> None:
+    """statistics of (c x) == c**2 statistics of x (M2: c**4), bit for bit, c = 2**unit_exp: the SAME code path on the same plan is run twice and
+    every operation of it (products, sums, FMAs, divisions by counts, any re-association chosen at compile time) commutes exactly with a power-of-two
+    factor as long as nothing under/overflows (bounds: see EXACT_MIN_EXP).  On the base record, on the record with a removable trend and on the record
+    with a trend of the next degree; both backends; window sums S2, S12 and the plan must not depend on the units at all."""
+    e = int(s.get("unit_exp", 0) or 0)
+    if e == 0 or e < EXACT_MIN_EXP:
+        return
+    c = math.ldexp(1.0, e)
+    s0 = {k: v for k, v in s.items() if k != "unit_exp"}
+    u1, u2 = build_records(s0)
+    o = s["o"]
+    order, cross, N = o["order"], s["cross"], s["N"]
+    recs: List[Tuple[str, np.ndarray, Optional[np.ndarray]]] = [("base", u1, u2)]
+    if order >= 0:
+        if cross:
+            recs.append(("trend", u1 + poly_trend(N, s["T1"]), u2 + poly_trend(N, s["T2"])))
+        else:
+            recs.append(("trend", u1 + poly_trend(N, s["T1"]), None))
+    recs.append(("next", u1 + poly_trend(N, s["Tnext"], centred=True), u2))
+    for be in BACKENDS:
+        sig = {"mode": s["mode"], "backend": be, "order": order, "cross": cross, "scheduler": o["scheduler"], "win": o["win"], "sub": "scale",
+               "units": "small" if e < 0 else "large"}
+        for nm, a1, a2 in recs:
+            rp = {"spec": s, "backend": be, "kind": "scale", "record": nm}
+            try:
+                r0, _ = run_impl(s0, a1, a2, be, None)
+                rc, _ = run_impl(s0, a1 * c, a2 * c if a2 is not None else None, be, None)
+            except (Exception, SystemExit) as ex:
+                P.hit("scale.raised(skipped; reported by the invariance stream)")
+                continue
+            P.cases += 1
+            P.hit(f"scale.{be}.order{order}.{'cross' if cross else 'auto'}.{s['mode']}")
+            if not same_plan(r0, rc) or not np.array_equal(r0.S2, rc.S2) or not np.array_equal(r0.S12, rc.S12):
+                P.violations.append(C.Violation(what=f"{be} order={order}: the plan / window sums depend on the units of the record (x 2**{e}), record={nm}",
+                                                signature={**sig, "field": "plan"}, replay=rp))
+                continue
+            bad = None
+            for fld, pw in (("XX", 2), ("YY", 2), ("XY", 2), ("M2", 4)):
+                if fld == "YY" and not cross:
+                    continue
+                v0 = np.asarray(getattr(r0, fld))
+                vc = np.asarray(getattr(rc, fld))
+                k = math.ldexp(1.0, pw * e)
+                for j in range(len(v0)):
+                    parts0 = (v0[j].real, v0[j].imag) if np.iscomplexobj(v0) else (float(v0[j]),)
+                    partsc = (vc[j].real, vc[j].imag) if np.iscomplexobj(vc) else (float(vc[j]),)
+                    for q0, qc in zip(parts0, partsc):
+                        want = float(q0) * k
+                        if not (math.isfinite(want) and math.isfinite(float(qc))) or (want != 0.0 and not 1e-290 <= abs(want) <= 1e290):
+                            P.unstable += 1
+                            P.hit("scale.out-of-range(not compared)")
+                            continue
+                        if int(r0.L[j]) >= 2 and want != 0.0:
+                            P.nontrivial.add(("scale", s["mode"], cross, order, be, nm, fld, int(r0.L[j]), e))
+                        if float(qc) != want and bad is None:
+                            rel = abs(float(qc) - want) / max(abs(want), 1e-300)
+                            stats["scale_worst_rel"] = max(stats.get("scale_worst_rel", 0.0), rel)
+                            bad = (fld, j, float(qc), want, rel, pw)
+            if bad is not None:
+                fld, j, got, want, rel, pw = bad
+                P.violations.append(C.Violation(
+                    what=f"{be} {o['scheduler']} order={order} {'cross' if cross else 'auto'} win={o['win']} ({s['mode']}, record={nm}): {fld}[{j}] of the record "
+                         f"multiplied by 2**{e} is {got!r} but 2**{pw * e} x the {fld} of the record itself is {want!r} (relative difference {rel:.3g}; a power-of-two "
+                         f"rescaling is exact, the estimator is homogeneous of degree {pw}), L={int(r0.L[j])}, f={float(r0.f[j])!r}",
+                    signature={**sig, "field": fld}, replay={**rp, "bin": j}))
+
+
+def units_stream(P: C.Part, ctx, n_rounds: int, off: int, stats: Dict[str, float], enough) -> None:
+    """the trend-invariance / next-degree / raw-reference / backends-agree predicates of `run_spec` on records expressed in units of 2**e, every band of
+    UNIT_BANDS on every run, orders 0, 1, 2 (and −1), auto and cross, compute_single_bin and compute(), numba and numpy; plus `check_scale`"""
+    k = 0
+    for rnd in range(n_rounds):
+        for i in range(14):
+            if enough():
+                return
+            lo, hi = UNIT_BANDS[(k + rnd) % len(UNIT_BANDS)]
+            e = int(ctx.rng.integers(lo, hi + 1))
+            cs = int(ctx.rng.integers(0, 2 ** 62))
+            sc = SCALES[(k // 2 + rnd) % 3]
+            if i < 12:
+                mode = "single" if i < 6 else "plan"
+                s = unit_spec(mode, off + i + 6 * rnd, cs, e, scale=sc)      # idx rotation: cross = idx % 2, order = (idx // 2) % 3
+                if mode == "single" and s["L"] < 4 and rnd % 2 == 0:
+                    s["L"] = int(4 + (s["rec_seed"] % 60))                    # mostly L > p+1 here (short L are covered by stream 1); N >= L
+                    s["N"] = max(int(s["N"]), s["L"] + int(s["rec_seed"] % 7))
+            else:
+                s = unit_spec("single" if i == 12 else "plan", off + (i - 12) + 2 * rnd, cs, e, order=-1)
+                s["cross"] = bool((i + rnd) % 2)
+                s["kind"] = ["offset", "drift"][(i + rnd) % 2]
+            k += 1
+            P.hit(f"units.2**[{lo},{hi}]")
+            run_spec(P, s, BACKENDS, None, stats)
+            check_scale(P, s, stats)
+            if k <= 2:
+                P.sample({"op": "oracle-units", **short(s)})
 
 # ---------------------------------------------------------------- correspondence
 def check_Q_contract(P: C.Part, L: int, order: int) -> None:
@@ -727,6 +877,8 @@ def oracle(ctx, intensive: bool = False, hints: List[Dict[str, Any]] = ()) -> C.
             run_spec(P, s, ["numba", "cuda"], cuda, stats)
     else:
         P.notes.append("CUDA backend not exercised (simulator worker unavailable)")
+    # 0a. units: every predicate on records scaled by exact powers of two (2**-200 … 2**+130), and the bit-for-bit homogeneity of the statistics
+    units_stream(P, ctx, ctx.scale(2, 8) * (2 if intensive else 1), off, stats, enough)
     # 0b. order −1 through the single-bin entry point, auto and cross, every backend, on records with an offset: the raw-windowed-segment reference
     for i in range(ctx.scale(6, 24) * mult):
         if enough():
@@ -800,6 +952,9 @@ def replay(ctx, data) -> C.Part:
         be = rp.get("backend", "numba")
         if v.get("signature", {}).get("mode") == "repeat":
             check_repeat(P, s, stats)
+            continue
+        if rp.get("kind") == "scale":
+            check_scale(P, s, stats)
             continue
         bes = ["numba", "cuda"] if "cuda" in str(be) else BACKENDS
         if "cuda" in bes and cuda is None:
